@@ -9,6 +9,8 @@ bounded part (bounded/C18_native.py, deal run-time contracts over a seeded state
   (b) compute() returns sorted masses that are fixed points m(m) = m inside the patch adjoining the quark's threshold on the side of the coupling reference
       (48 draws: reference nf 3-6 x orders 1-4 x exact / expanded, random masses, reference scales, matching ratios, xif), and refuses inconsistent inputs
       with ValueError (12 variants).  One defect repaired by a fix commit: under NumPy >= 2 no mass that needs solving could be computed (TypeError).
+observation (not a claim): solve() ignores the convergence flag of scipy.optimize.fsolve -- outside the perturbative range (e.g. alpha_s = 0.118 imposed at 400 GeV with
+nf = 6, N3LO exact, charm) it returns a value that is not a fixed point without any error; the bounded inputs use real-world alpha_s(Qref).
 not covered: the decoupling constants of the running mass across matching scales and their RG-required logarithms; convergence of scipy.optimize.fsolve
 (the returned value is checked to be a fixed point on the sampled inputs only).
 """
